@@ -553,16 +553,19 @@ func runC04(c *ctx) {
 		if wf, ok := e0.sto.(interface {
 			OpenWholeRef(wholeRef blob.Ref, offset int64) (rc io.ReadCloser, wholeSize int64, err error)
 		}); ok {
-			off := int64(c.rng.Intn(size))
-			rc, wsize, err := wf.OpenWholeRef(blob.RefFromBytes(content), off)
-			c.rep.SpecChecks++
-			if err != nil {
-				c.violation(len(c.casesBuf)-1, "c04-whole-read", fmt.Sprintf("OpenWholeRef at %d: %v", off, err), nil)
-			} else {
-				got, _ := io.ReadAll(rc)
+			// from the start, from points inside every later zip of the pack, from the last byte and from the very end
+			for _, off := range []int64{0, int64(size / 4), int64(size / 2), int64(3 * size / 4), int64(size - 1), int64(size), int64(c.rng.Intn(size))} {
+				rc, wsize, err := wf.OpenWholeRef(blob.RefFromBytes(content), off)
+				c.rep.SpecChecks++
+				if err != nil {
+					c.violation(len(c.casesBuf)-1, "c04-whole-read", fmt.Sprintf("OpenWholeRef at %d: %v", off, err), nil)
+					break
+				}
+				got, rerr := io.ReadAll(rc)
 				rc.Close()
-				if wsize != int64(size) || !bytes.Equal(got, content[off:]) {
-					c.violation(len(c.casesBuf)-1, "c04-whole-read", fmt.Sprintf("OpenWholeRef at %d returns %d bytes of a %d-byte file, or other bytes", off, len(got), wsize), nil)
+				if rerr != nil || wsize != int64(size) || !bytes.Equal(got, content[off:]) {
+					c.violation(len(c.casesBuf)-1, "c04-whole-read", fmt.Sprintf("OpenWholeRef at %d of a %d-byte file in %d zips returns %d bytes (read error: %v), or other bytes", off, size, len(zs), len(got), rerr), nil)
+					break
 				}
 			}
 		}
